@@ -16,7 +16,7 @@ from vf.core import CaseResult, Ctx, Violation, hyp_run, exc_sig
 
 PROP_ID = 'C39'
 LEVEL = 'exploration'
-BUDGET = {'quick': 16000, 'thorough': 1000000}
+BUDGET = {'quick': 16000, 'thorough': 800000}
 RULE = (
     'Hypothesis draws a name either (50%) as 1-7 path components joined by '
     '"/" -- components from: plain words, unicode words, ".", "..", "", the '
@@ -192,3 +192,7 @@ def check_case(case, ctx: Ctx) -> CaseResult:
 
 def run_shard(ctx: Ctx):
     hyp_run(ctx, names(), check_case, ctx.share(BUDGET[ctx.tier]))
+    if ctx.tier == 'thorough' and ctx.shard == 0:
+        # second driver (same oracle); never decides the property by itself
+        from vf.gen import idname_atheris
+        idname_atheris.run(ctx, PROP_ID)
